@@ -375,6 +375,8 @@ def icosphere(n_refine : int= 3, center: Vec = Vec(0.,0.,0.), radius: float = 1.
         SurfaceMesh: the sphere
     """
     ico = icosahedron(center, radius)
+    for iv in ico.id_vertices: # vertices of the icosahedron are not at distance 'radius' from the center
+        ico.vertices[iv] = center + radius*Vec.normalized(ico.vertices[iv]-center)
     # Subdivide
     with SurfaceSubdivision(ico,False) as subdiv:
         for _ in range(n_refine):
